@@ -144,3 +144,7 @@ func TestMain(m *testing.M) {
 	chain.CleanWorkDir()
 	os.Exit(code)
 }
+
+// os_only_regress reports whether only the regression phase is wanted (replay of a
+// recorded finding).
+func os_only_regress() bool { return os.Getenv("VERIF_ONLY_REGRESS") == "1" }
